@@ -1,7 +1,9 @@
 (** C11 (shared by C08–C10) — Layer 2: chunk streams and the pull operators.
 
     Transcription of crates/grafeo-core/src/execution/{chunk,selection}.rs and
-    operators/{filter,limit,distinct,union,aggregate}.rs AS WRITTEN at HEAD.  Definitions only.
+    operators/{filter,limit,distinct,union,aggregate}.rs AS WRITTEN at HEAD (the code as it is
+    now, committed repairs included; a [_pre] definition transcribes the code before a repair).
+    Definitions only.
 
     A chunk is a list of physical rows plus an optional selection vector (indices of the
     logical rows).  A child operator is represented by the list of chunks it still has to
@@ -78,13 +80,27 @@ Section Filter.
   Variable envf : row -> env.
   Definition row_passes (p : expr) (r : row) : bool := passes fa p (envf r).
 
-  (** as written: the predicate is evaluated on every physical row ([total_row_count]) and the
-      chunk's selection is REPLACED ([set_selection]); an incoming selection is not consulted *)
+  (** [SelectionVector::filter(f)] of the chunk's existing selection: the selected indices on
+      which [f] holds, in order (an index that points at no row yields no value for any column;
+      chunks are well-formed — [chunk_wf] — wherever the engine builds them, and such an index
+      contributes no logical row in [lrows] either) *)
+  Definition sel_filter (f : row -> bool) (rows : list row) (s : list Z) : list Z :=
+    filter (fun i => match nth_error rows (Z.to_nat i) with Some r => f r | None => false end) s.
+
+  (** as written NOW (after df57ccb): rows that an operator below has already deselected stay
+      deselected — [match chunk.selection() { Some(existing) => existing.filter(..),
+      None => SelectionVector::from_predicate(total_row_count, ..) }]; a chunk on which nothing
+      passes is skipped ([continue]) *)
+  Definition filter_sel (p : expr) (c : chunk) : list Z :=
+    match c_sel c with
+    | None => sel_from_pred (row_passes p) 0 (c_rows c)
+    | Some s => sel_filter (row_passes p) (c_rows c) s
+    end.
   Fixpoint filter_next (p : expr) (_ : unit) (cs : list chunk) : option (chunk * unit * list chunk) :=
     match cs with
     | [] => None
     | c :: rest =>
-        match sel_from_pred (row_passes p) 0 (c_rows c) with
+        match filter_sel p c with
         | [] => filter_next p tt rest
         | sel => Some (mkChunk (c_rows c) (Some sel), tt, rest)
         end
@@ -92,24 +108,24 @@ Section Filter.
   Definition drain_filter (p : expr) (cs : list chunk) : list chunk :=
     drain_st (filter_next p) (fuel_of cs) tt cs.
 
-  (** the obvious repair (proposed-fixes/C11-filter-selection.diff): evaluate on the selected
-      rows only — used for the theorem that the repaired operator meets the specification *)
-  Fixpoint filter_next_fixed (p : expr) (_ : unit) (cs : list chunk) : option (chunk * unit * list chunk) :=
+  (** BEFORE df57ccb (finding C11-K1): the predicate was evaluated on every physical row
+      ([total_row_count]) and the chunk's selection was REPLACED ([set_selection]); an incoming
+      selection was not consulted *)
+  Fixpoint filter_next_pre (p : expr) (_ : unit) (cs : list chunk) : option (chunk * unit * list chunk) :=
     match cs with
     | [] => None
     | c :: rest =>
-        let sel := match c_sel c with
-                   | None => sel_from_pred (row_passes p) 0 (c_rows c)
-                   | Some s => filter (fun i => match nth_error (c_rows c) (Z.to_nat i) with
-                                                | Some r => row_passes p r | None => false end) s
-                   end in
-        match sel with
-        | [] => filter_next_fixed p tt rest
-        | _ => Some (mkChunk (c_rows c) (Some sel), tt, rest)
+        match sel_from_pred (row_passes p) 0 (c_rows c) with
+        | [] => filter_next_pre p tt rest
+        | sel => Some (mkChunk (c_rows c) (Some sel), tt, rest)
         end
     end.
-  Definition drain_filter_fixed (p : expr) (cs : list chunk) : list chunk :=
-    drain_st (filter_next_fixed p) (fuel_of cs) tt cs.
+  Definition drain_filter_pre (p : expr) (cs : list chunk) : list chunk :=
+    drain_st (filter_next_pre p) (fuel_of cs) tt cs.
+
+  (** names used while the repair was only proposed *)
+  Definition filter_next_fixed := filter_next.
+  Definition drain_filter_fixed := drain_filter.
 End Filter.
 
 Definition row_env (r : row) : env := map Some r.
